@@ -195,3 +195,30 @@ def families(tier, horizon=25):
                    name="hard_di/hard_disk_dipoles_cells+lat9"),
         ]
     return specs
+
+
+TIME_OPTIONS = ("chain_time", "chain_length", "sampling_interval", "dumping_interval")
+
+
+def fast_variant(spec, default_summary):
+    """If the default execution covered less than 1.5 chain times, derive the same wiring with every time scale
+    (chain time, mode-switch chain lengths, sampling / dumping intervals) shortened by one common factor such that
+    about three chains fit into the horizon.  Create / trash / activate lists and all handlers are untouched."""
+    T = default_summary.get("final_time")
+    if not T or T <= 0 or spec.name.endswith("~fast"):
+        return []
+    c = cfg.load(spec.ini, spec.overrides)
+    chain = None
+    for sec in c.sections():
+        if c.has_option(sec, "chain_time"):
+            chain = float(c.get(sec, "chain_time"))
+    if chain is None or T >= 1.5 * chain:
+        return []
+    # 0.9137: keep the shortened time scales incommensurate with event times of periodic motions (no artificial ties)
+    f = 0.9137 * T / (3.0 * chain)
+    ov = dict(spec.overrides)
+    for sec in c.sections():
+        for opt in TIME_OPTIONS:
+            if c.has_option(sec, opt):
+                ov[(sec, opt)] = repr(float(c.get(sec, opt)) * f)
+    return [Spec(spec.name + "~fast", spec.ini, ov, spec.start, spec.seed, spec.horizon, tags=spec.tags + ("fast",))]
